@@ -722,6 +722,16 @@ func (ev *Env) call(e *ECall) Value {
 	if sf, ok := fx.E.specFuncs[e.Fun]; ok {
 		return sf(ev, e)
 	}
+	if fx.E.S.GhostFields[e.Fun] {
+		if len(e.Args) != 1 {
+			ev.errf("ghost field %s expects one argument (the object)", e.Fun)
+		}
+		v := ev.eval(e.Args[0])
+		if v.Kind != KInt && v.Kind != KIface {
+			ev.errf("ghost field %s: pointer or interface argument only", e.Fun)
+		}
+		return IntV(Select(fx.heapOf(ev.cur, "G."+e.Fun), v.T), tInt)
+	}
 	if ar, ok := fx.E.S.Ghosts[e.Fun]; ok {
 		if len(e.Args) != ar {
 			ev.errf("ghost %s expects %d arguments", e.Fun, ar)
